@@ -248,3 +248,31 @@ def ed_verify(key, message, sig):
 def ed_sign(seed, message):
     from nacl.signing import SigningKey
     return SigningKey(seed).sign(message).signature
+
+
+def zeros(n):
+    return b'\x00' * n
+
+
+def all_values_refs(d):
+    """every value of the dict is an object reference (not bytes / int / ...)"""
+    return all(not isinstance(v, (bytes, int, str, float, list, tuple, type(None))) for v in d.values())
+
+
+class SpecUnavailable(Exception):
+    """raised by a spec that does not cover the present shape of arguments (the call then falls back
+    to the contract's havoc / ensures)"""
+
+
+def concrete_len(x):
+    """True if x is a list / tuple whose length is a concrete number (always, natively)"""
+    return True
+
+
+def unspecified():
+    raise SpecUnavailable()
+
+
+def strint_part(d):
+    """the str / int keyed part of a dict"""
+    return {k: v for k, v in d.items() if type(k) in (str, int)}
